@@ -208,7 +208,7 @@ fn lit_val(vals: &[[u64; 4]], lit: u64) -> Option<[u64; 4]> {
 
 enum Outcome {
     /// (ordered result, literal map probes, `Aig::from(ordered)`)
-    Ok(AigOwned, Vec<(u64, Option<u64>)>, AigOwned),
+    Ok(AigOwned, Vec<(u64, bool, Option<u64>)>, AigOwned),
     Err(&'static str, u64),
     Panic(String),
 }
@@ -231,7 +231,7 @@ fn renumber<L: Lit>(c: &Case, probe: &[u64]) -> Outcome {
                 .iter()
                 .map(|&l| {
                     let lit = L::from_code(l as usize);
-                    (l, if map.contains_key(lit) { map.get(lit).map(|m| m.code() as u64) } else { None })
+                    (l, map.contains_key(lit), map.get(lit).map(|m| m.code() as u64))
                 })
                 .collect();
             let plain: Aig<L> = Aig::from(ordered.clone());
@@ -426,7 +426,22 @@ pub fn check(c: &Case, obs: &mut Obs) -> CheckResult {
             );
         }
     }
-    for (old, new) in mapped {
+    // the map's accessors agree with each other, for both polarities of every probed literal
+    for w in mapped.chunks(2) {
+        if let [(l0, c0, g0), (l1, c1, g1)] = w {
+            let consistent = c0 == c1 && *c0 == g0.is_some() && *c1 == g1.is_some() && g0.map(|x| x ^ 1) == *g1;
+            if !consistent {
+                fail!(
+                    sig("lit-map-accessors"),
+                    "lit_map is inconsistent for literals {l0}/{l1}: contains_key {c0}/{c1}, get {:?}/{:?} ({cfg_name}); original {:?}",
+                    g0,
+                    g1,
+                    a
+                );
+            }
+        }
+    }
+    for (old, _, new) in mapped {
         let Some(new) = new else { continue };
         let Some(want) = sim.eval(old) else { continue };
         if lit_val(&vals, new) != Some(want) {
